@@ -249,10 +249,14 @@ func decideCase(run *sim.Run, id int) {
 	nTicks := int64(900)
 	lastAccepted := map[string]int64{} // signal -> block time of the last accepted submission
 	lastInterval := map[string]int64{} // signal -> interval in force at that time
+	lastBlockTick := int64(0)
 	for tick := int64(0); tick < nTicks; tick++ {
 		T++
 		// ---- block production
-		if rng.Chance(6, 10) || tick == nTicks-1 {
+		// blocks come at least every 3 s (the feeds module's own MaxGuaranteeBlockTime): without a bound the
+		// geometric tail of block gaps alone can exceed a 40 s interval's 8 s margin after the send slot
+		if rng.Chance(6, 10) || tick == nTicks-1 || tick-lastBlockTick >= 3 {
+			lastBlockTick = tick
 			var btx [][]byte
 			var delivered []*inflight
 			var rest []*inflight
